@@ -69,14 +69,17 @@ package lint
 //@   maypanic
 //@   assigns \fresh
 //@   ensures result != nil && fresh(result)
+//@   assume [C11] implementsI(result, Configurable) == ctorConfigurable(fnval) -- a registered constructor has one return of one fixed dynamic type: constructor census of the C02/C12 sweeps
 //@ field RevocationListLint.Lint
 //@   maypanic
 //@   assigns \fresh
 //@   ensures result != nil && fresh(result)
+//@   assume [C11] implementsI(result, Configurable) == ctorConfigurable(fnval) -- a registered constructor has one return of one fixed dynamic type: constructor census of the C02/C12 sweeps
 //@ field OcspResponseLint.Lint
 //@   maypanic
 //@   assigns \fresh
 //@   ensures result != nil && fresh(result)
+//@   assume [C11] implementsI(result, Configurable) == ctorConfigurable(fnval) -- a registered constructor has one return of one fixed dynamic type: constructor census of the C02/C12 sweeps
 
 //@ interface CertificateLintInterface.CheckApplies
 //@   maypanic
@@ -855,3 +858,44 @@ package lint
 //@   nopanic
 //@   assigns \nothing
 //@   ensures ok == indom(profiles, name)
+
+// ---------------------------------------------------------------------------
+// the example configuration has a section for every configurable lint (C11)
+//
+// ctorConfigurable(f): the lint the constructor f builds implements Configurable (uninterpreted; a
+// constructor always builds the same dynamic type). exampleCovers(m, r): every lint of r - of all
+// three kinds - whose constructor builds a configurable lint has an entry under its name in m.
+//@ spec ctorConfigurable(f funcval) bool
+//@ spec coversCert(m map[string]interface{}, r *registryImpl) bool =
+//@      all(n, string, implies(indom(r.certificateLints.lintsByName, n) && ctorConfigurable(r.certificateLints.lintsByName[n].Lint), indom(m, n)))
+//@ spec coversOcsp(m map[string]interface{}, r *registryImpl) bool =
+//@      all(n, string, implies(indom(r.ocspResponseLints.lintsByName, n) && ctorConfigurable(r.ocspResponseLints.lintsByName[n].Lint), indom(m, n)))
+//@ spec coversCrl(m map[string]interface{}, r *registryImpl) bool =
+//@      all(n, string, implies(indom(r.revocationListLints.lintsByName, n) && ctorConfigurable(r.revocationListLints.lintsByName[n].Lint), indom(m, n)))
+
+//@ func stripGlobalsFromExample [C11]
+//@   trusted
+//@   maypanic
+//@   assigns \fresh
+
+//@ interface GlobalConfiguration.namespace
+//@   maypanic
+//@   assigns \nothing
+
+//@ trace extern (*github.com/pelletier/go-toml.Encoder).Encode as TomlEnc
+
+//@ func (*registryImpl).defaultConfiguration [C11]
+//@   requires wfRegistry(r)
+//@   maypanic
+//@   assigns \fresh
+//@   loopframe
+//@   loop 1 invariant configurables != nil && fresh(configurables)
+//@   loop 1 invariant all(n, string, implies(seen(1, n) && ctorConfigurable(r.certificateLints.lintsByName[n].Lint), indom(configurables, n)))
+//@   loop 2 invariant configurables != nil && fresh(configurables) && coversCert(configurables, r)
+//@   loop 2 invariant all(n, string, implies(seen(2, n) && ctorConfigurable(r.ocspResponseLints.lintsByName[n].Lint), indom(configurables, n)))
+//@   loop 3 invariant configurables != nil && fresh(configurables) && coversCert(configurables, r) && coversOcsp(configurables, r)
+//@   loop 3 invariant all(n, string, implies(seen(3, n) && ctorConfigurable(r.revocationListLints.lintsByName[n].Lint), indom(configurables, n)))
+//@   loop 4 invariant configurables != nil && fresh(configurables) && coversCert(configurables, r) && coversOcsp(configurables, r) && coversCrl(configurables, r)
+//@   loop 5 invariant configurables != nil && fresh(configurables) && coversCert(configurables, r) && coversOcsp(configurables, r) && coversCrl(configurables, r)
+//@   atcall (*github.com/pelletier/go-toml.Encoder).Encode 1 coversCert(configurables, r) && coversOcsp(configurables, r) && coversCrl(configurables, r)
+//@   atcall (*github.com/pelletier/go-toml.Encoder).Encode 1 typeIs(callarg1, map[string]interface{}) && unbox(callarg1, map[string]interface{}) == configurables
